@@ -50,7 +50,7 @@ MANIFEST = {
             "generators and oracle, the hand transcription M (checked against the compiled code on the schedules run only).",
     "design_ref": "DESIGN.md §4 C07, design/C07.md",
 }
-LEAN_MODULES = ["CoapVerif.Props.C07"]
+LEAN_MODULES = ["CoapVerif.Props.C07", "CoapVerif.Props.C07Late", "CoapVerif.Props.C07Sim", "CoapVerif.Props.C07Pers"]
 NAMESPACE = "Coap.C07"
 REQUIRED_THEOREMS = ["exactly_once_partial", "response_stops_retransmission", "con_response_always_acked",
                      "fail_verdict_resets", "non_delivered_once_per_datagram", "at_most_one_conclusion",
@@ -64,7 +64,13 @@ REQUIRED_THEOREMS = ["exactly_once_partial", "response_stops_retransmission", "c
                      # never twice for ANY ACK-typed / CON response (matched on the send queue or not)
                      "response_never_delivered_twice_in_a_row", "run_ack_response_at",
                      # the give-up (TOO_MANY_RETRIES) comes only after 1 + MAX_RETRANSMIT transmissions and T << MAX_RETRANSMIT after the last
-                     "giveup_never_premature"]
+                     "giveup_never_premature",
+                     # complement of NoLate: conclusions <= 1 + late copies of the response, exactly 2 with a late copy
+                     "lateArrivals_zero_iff_noLate", "conclusions_bounded_by_late_responses", "late_response_is_second_conclusion",
+                     # refinement: the harness loop Sim.run (what is compared with the real code) is a run of the closed loop Sys
+                     "sim_run_refines_sys", "sim_run_is_sys_run", "sim_exactly_once_partial", "sim_exactly_once_piggybacked",
+                     # the exclusion of dn / da from exactly_once_closed_loop_partial is necessary (decided runs of Sys)
+                     "dn_duplicate_delivered_twice_witness", "da_response_then_nack_witness"]
 RULE = ("schedules for harness/exchange.c (real client + real server context, virtual clock, scripted network): server personality "
         "(piggyback, coap_async delayed / triggered, application-delayed separate CON / NON / ACK-typed-with-own-mid, each with and "
         "without application-level request de-duplication) x request token (default 2 bytes, zero-length, 1 byte, 2..8 bytes) x fate of every datagram in order of transmission (deliver after d ms / drop / duplicate) x scripted "
